@@ -413,6 +413,32 @@ def _check_caches(r5, alg: Alg, ev: MatEval, f, v: Val, cname, how):
         r5.inst({"class": cname, "member": f.qualname, "forwarded capacitance": repr(alg.simplify(got))[:80], "definition on new arguments": repr(alg.simplify(want))[:80]})
         if not ok:
             r5.violate(PROP, f"{f.qualname}[{cname}]:capacitance-cache", f"{cname}.{f.name} hands the constructor the capacitance matrix {alg.simplify(got)!r}, but for the new arguments the capacitance K^-1 + s V A^-1 U is {alg.simplify(want)!r}: inverses / determinants of the result use a stale cache", node=f.node, file=f.file)
+    if v.cls in ("DenseDefiniteMatrix", "DensePositiveDefiniteMatrix") and v.args.get("factor") is not None and v.args["factor"].kind in ("mat", "obj"):
+        # a forwarded triangular factor must be a factor of the new array: array' = s' F' F'^T
+        arr = _m(v.args, "array", alg)
+        Fn = ev._mat(f, v.args["factor"])
+        prod = alg.mul(Fn, alg.T(Fn))
+        flag = v.args.get("is_posdef")
+        if v.cls == "DensePositiveDefiniteMatrix" or (flag is not None and flag.kind == "bool" and flag.v is True):
+            cands = [prod]
+        elif flag is not None and flag.kind == "bool" and flag.v is False:
+            cands = [prod.scale(Rat.const(-1))]
+        else:
+            # sign not decided by a constant flag: any sign s' (a symbolic sign included) will do
+            cands = [prod, prod.scale(Rat.const(-1)), prod.scale(sign_atom("s"))]
+        ok = any(alg.equal(arr, c) for c in cands)
+        r5.inst({"class": cname, "member": f.qualname, "forwarded factor": repr(alg.simplify(Fn))[:60], "factor of the new array": ok})
+        if not ok:
+            r5.violate(PROP, f"{f.qualname}[{cname}]:factor-cache:{how}", f"{cname}.{f.name} hands the constructor the array {alg.simplify(arr)!r} together with the factor {alg.simplify(Fn)!r}, but F F^T = {alg.simplify(prod)!r}: the square root (momentum draws), inverse and log-determinant of the result use a factor of a different matrix", node=f.node, file=f.file)
+    if v.cls == "DenseSymmetricMatrix" and all(v.args.get(a) is not None and v.args[a].kind in ("mat", "obj") for a in ("eigvec", "eigval")):
+        # a forwarded eigendecomposition must be one of the new array: array' = Q' E' Q'^T
+        arr = _m(v.args, "array", alg)
+        Qn, En = ev._mat(f, v.args["eigvec"]), ev._mat(f, v.args["eigval"])
+        want = alg.mul(alg.mul(Qn, En), alg.T(Qn))
+        ok = alg.equal(arr, want)
+        r5.inst({"class": cname, "member": f.qualname, "forwarded eigendecomposition": repr(alg.simplify(want))[:70], "of the new array": ok})
+        if not ok:
+            r5.violate(PROP, f"{f.qualname}[{cname}]:eigen-cache:{how}", f"{cname}.{f.name} hands the constructor the array {alg.simplify(arr)!r} together with eigenvectors / eigenvalues whose product Q E Q^T is {alg.simplify(want)!r}: the eigenvalue-eigenvector pairing (inverse, square root, products through the decomposition) no longer belongs to the array", node=f.node, file=f.file)
     if v.cls in LU_CLASSES and how in ("transpose", "inv") and "<lu_matrix>" in ev.attrs:
         _aa, _fa, pa, pf = LU_CLASSES[v.cls]
         new_arr = _m(v.args, pa, alg)
@@ -641,8 +667,8 @@ def run(rep, program: Program, tier: str) -> None:
         "class denotations (trusted table in props/c10.py) follow the class docstrings",
         "members based on comprehensions over blocks, LU factorisations, eigendecompositions of dense arrays and the hierarchical square root are outside the algebra (listed in coverage.members_outside_algebra); agreement with LAPACK numerics and conditioning are not decided",
     ]
-    rule_algebra(rep, program)
-    rule_blocks(rep, program, tier)
-    rule_lu_typestate(rep, program)
-    rule_parity(rep, program)
-    c08.rule_r4(rep, program, prop=PROP, rule="R6")
+    rep.isolate(rule_algebra, rep, program)
+    rep.isolate(rule_blocks, rep, program, tier)
+    rep.isolate(rule_lu_typestate, rep, program)
+    rep.isolate(rule_parity, rep, program)
+    rep.isolate(c08.rule_r4, rep, program, prop=PROP, rule="R6")
